@@ -51,11 +51,15 @@ func vC05Template(t int, h *vHoles) vC05Tmpl {
 		return vC05Tmpl{[]*vRef{n}, []string{"n"}, vBin(true, "&", vCmp(">=", vKeyRef(), &vRef{node: rText, text: []byte("a")}), vCmp("=", vArith("+", an(), an()), h.num())), dig, let}
 	case 13:
 		return vC05Tmpl{[]*vRef{n, l}, []string{"n", "l"}, vBin(false, "|", vCmp(">", an(), h.num()), vCmp(">", al(), vNumConst(1))), dig, let}
+	case 14: // three references; the second one feeds an operator that writes its result in place
+		return vC05Tmpl{[]*vRef{n}, []string{"n"}, vBin(true, "&", vBin(true, "&", vCmp(">", an(), vNumConst(0)), vCmp(">", vNumConst(6), vArith("*", an(), vNumConst(2)))), vCmp("<", an(), h.num())), "0123", let}
+	case 15:
+		return vC05Tmpl{[]*vRef{w}, []string{"w"}, vBin(true, "&", vBin(true, "&", vCmp("!=", aw(), &vRef{node: rText, text: []byte("q")}), vCmp("=", vConcat(aw(), &vRef{node: rText, text: []byte("y")}), &vRef{node: rText, text: []byte("axy")})), vCmp("^=", aw(), &vRef{node: rText, text: []byte("a")})), let, let}
 	}
 	return vC05Tmpl{[]*vRef{n}, []string{"n"}, vCmp(">", an(), h.num()), dig, let}
 }
 
-const vNumC05 = 14
+const vNumC05 = 16
 
 func VN_C05(tier int) int { return vNumC05 }
 
